@@ -1,7 +1,112 @@
-import Driver.Common
-/-! Line-protocol handlers for C03 (sub-commands `c03` / `c03-*`). -/
-namespace Driver.C03
+import Driver.C01
+import ElvisVerif.Spec.Rfc9293
+/-!
+Line-protocol handlers for C03.
 
-def dispatch (_sub : String) (_i _o : IO.FS.Stream) : Option (IO Unit) := none
+* `c03`, `c03-*` (except `c03-edges`): the two-endpoint TCP system of `Driver/C01.lean` (same
+  ops, same answers) with the **transition log** appended to every answer:
+  ` | tr <from>><to> <0|1>` — the connection state of the addressed side before and after the op
+  (`-` = no TCB) and whether RFC 9293 allows that move for the events the op stands for
+  (`Spec/Rfc9293.lean`: `rfcReach` over `rfcCause`).  Events: `open` = user OPEN, `close` = user
+  CLOSE, `abort` = user ABORT, `tick` = the TIME-WAIT timeout, `deliver`/`inject` = the arriving
+  segment's control bits and those of every segment waiting in the reorder queue (any of them
+  may be processed by this call), everything else = no event (the state must not change).
+  `drop` is the harness deleting a TCB, not a TCB operation: `tr - - 1`.
+* `c03-edges`: the RFC table itself — `edge F T` answers `rfcEdges`, `cause EV F T` answers
+  `rfcCause` (`EV` = `open` `close` `abort` `timeout` `seg<n>`, `n = 8·ack + 4·rst + 2·syn + fin`),
+  so that the harness' Rust copy of the table is checked against the Lean one on every run.
+-/
+namespace Driver.C03
+open Elvis.Tcp Elvis.Rfc9293
+
+def stName : Option State → String
+  | none => "-"
+  | some s => Driver.C01.stateStr s
+
+def parseSt : String → Option (Option State)
+  | "-" => some none
+  | "SynSent" => some (some .SynSent)
+  | "SynReceived" => some (some .SynReceived)
+  | "Established" => some (some .Established)
+  | "FinWait1" => some (some .FinWait1)
+  | "FinWait2" => some (some .FinWait2)
+  | "CloseWait" => some (some .CloseWait)
+  | "Closing" => some (some .Closing)
+  | "LastAck" => some (some .LastAck)
+  | "TimeWait" => some (some .TimeWait)
+  | _ => none
+
+def evOfSeg (seg : Segment) : Event :=
+  .segment seg.hdr.ctl.ack seg.hdr.ctl.rst seg.hdr.ctl.syn seg.hdr.ctl.fin
+
+def parseEv (s : String) : Option Event :=
+  match s with
+  | "open" => some .userOpen
+  | "close" => some .userClose
+  | "abort" => some .userAbort
+  | "timeout" => some .timeWaitTimeout
+  | _ =>
+    if s.startsWith "seg" then
+      match (s.drop 3).toNat? with
+      | some n => if n < 16 then some (.segment (n / 8 % 2 == 1) (n / 4 % 2 == 1) (n / 2 % 2 == 1) (n % 2 == 1)) else none
+      | none => none
+    else none
+
+/-- the events an op stands for (`none`: not a TCB operation) -/
+def eventsOf (sys : Sys) (op : Op) : Option (List Event) :=
+  let arriving (x : SideId) (seg : Segment) : List Event :=
+    evOfSeg seg :: (match (sys.side x).tcb with
+      | some t => t.incoming.segments.map evOfSeg
+      | none => [])
+  match op with
+  | .open .. => some [.userOpen]
+  | .close _ => some [.userClose]
+  | .abort _ => some [.userAbort]
+  | .tick .. => some [.timeWaitTimeout]
+  | .deliver x i =>
+    match sys.nth i with
+    | none => some []
+    | some seg => some (arriving x seg)
+  | .inject x seg => some (arriving x seg)
+  | .drop _ => none
+  | _ => some []
+
+def step (st : Driver.C01.St) (ws : List String) : Driver.C01.St × String :=
+  match ws with
+  | ["case", _] => Driver.C01.step st ws
+  | _ =>
+    if st.dead then Driver.C01.step st ws else
+    match Driver.C01.parseOp ws with
+    | none => Driver.C01.step st ws
+    | some op =>
+      let x := op.side
+      let before := (st.sys.side x).tcb.map (·.state)
+      let evs := eventsOf st.sys op
+      let (st', ans) := Driver.C01.step st ws
+      if st'.dead then (st', ans) else
+      let after := (st'.sys.side x).tcb.map (·.state)
+      match evs with
+      | none => (st', ans ++ " | tr - - 1")
+      | some evs =>
+        (st', ans ++ s!" | tr {stName before}>{stName after} {if rfcReach evs before after then 1 else 0}")
+
+def edgeStep (_ : Unit) (ws : List String) : Unit × String :=
+  let b (x : Bool) : String := if x then "1" else "0"
+  match ws with
+  | ["case", id] => ((), s!"case {id}")
+  | ["edge", f, t] =>
+    match parseSt f, parseSt t with
+    | some f, some t => ((), b (rfcEdges f t))
+    | _, _ => ((), "bad-op")
+  | ["cause", ev, f, t] =>
+    match parseEv ev, parseSt f, parseSt t with
+    | some ev, some f, some t => ((), b (rfcCause ev f t))
+    | _, _, _ => ((), "bad-op")
+  | _ => ((), "bad-op")
+
+def dispatch (sub : String) (i o : IO.FS.Stream) : Option (IO Unit) :=
+  if sub.startsWith "c03-edges" then some (Driver.loop i o edgeStep ())
+  else if sub.startsWith "c03" then some (Driver.loop i o step {})
+  else none
 
 end Driver.C03
